@@ -24,10 +24,10 @@ type c13Params struct {
 func c13Gen(tier string, seed int64) []fw.Case {
 	var cs []fw.Case
 	for i := 0; i < 16; i++ {
-		cs = append(cs, fw.Mk(fmt.Sprintf("unit-%d", i), c13Params{Mode: "unit", N: scale(tier, 12, 300)}))
+		cs = append(cs, fw.Mk(fmt.Sprintf("unit-%d", i), c13Params{Mode: "unit", N: scale(tier, 12, 2500)}))
 	}
 	for i := 0; i < 16; i++ {
-		cs = append(cs, fw.Mk(fmt.Sprintf("system-%d", i), c13Params{Mode: "system", N: scale(tier, 3, 80)}))
+		cs = append(cs, fw.Mk(fmt.Sprintf("system-%d", i), c13Params{Mode: "system", N: scale(tier, 3, 400)}))
 	}
 	return cs
 }
